@@ -251,6 +251,7 @@ def unguarded_demo(rep: Report):
 def run(rep: Report):
     crash_probe(rep)
     unguarded_demo(rep)
+    atom_tr.crosscheck(rep)
     drive(rep, rep.seed, rep.tier, time.time() + budget(rep.tier, 100, 900))
 
 
